@@ -52,6 +52,12 @@ def __parse_bool(_val: str) -> bool:
     return _val == 'True'
 
 
+def __format_custom(_val):
+    if isinstance(_val, datetime):
+        return _val.strftime(__DATE_FORMAT)
+    return _val
+
+
 __DEFAULT_FIELDS = [
     'id', 'name', 'resource', 'start', 'end', 'estimate', 'spent', 'milestone', 'parent_id', 'predecessor_ids'
 ]
@@ -65,7 +71,9 @@ def read_csv(path: str, encoding='utf-8', delimiter=';') -> WBS:
         for row in csvfile:
             kwargs = {}
             for k, v in header.items():
-                if k not in __DEFAULT_FIELDS:
+                if k == 'min_start':
+                    kwargs[k] = __parse_date(row[v])
+                elif k not in __DEFAULT_FIELDS:
                     kwargs[k] = row[v]
 
             raws.append(
@@ -113,5 +121,6 @@ def write_csv(wbs: WBS, path: str, encoding='utf-8', delimiter=';'):
                 task.parent_id,
                 ';'.join([str(pid) for pid in task.predecessor_ids])
             ] + [
-                task.__getattribute__(k) if k in task.__dict__ and not k.startswith('_') else '' for k in field_list
+                __format_custom(task.__getattribute__(k)) if k in task.__dict__ and not k.startswith('_') else ''
+                for k in field_list
             ])
